@@ -30,6 +30,21 @@ CHECKS = {
  "C13": ("exploration", "controlled partitioning (GetPartitions override / pre-split mock regions) with differential comparison against the unpartitioned reference snapshot and stream-framing monitor", "5 C13",
    "Held on generated histories under generated partitionings (borders on index records, inside one key's versions, at never-stored keys, shuffled): List, Count, whole-interval stream, per-advertised-partition streams and the etcd range stream each contain every qualifying key once with the right version; batches name the read revision; one terminator, last.",
    "borders are the forms an engine splitting at existing keys can produce; TiKV regions are those of the mock cluster"),
+ "C05": ("exploration", "event-stream monitor against acknowledged-write ground truth; interleavings placed by blocking verif hook points; overflow race placed at the removal hook", "5 C05",
+   "Held on stress, hook-placed and overflow executions (counts in evidence): every accepted watch received a prefix of the matching acknowledged changes with exact payloads, strictly increasing, complete through an acknowledged sentinel while open; refusals only outside the cached window.",
+   "hook callbacks block only between lock-protected sections (a descheduled goroutine), so no impossible interleaving is manufactured"),
+ "C06": ("exploration", "client-boundary reconstruction check: List@R + watch events <= R' == List@R', sentinel-delimited, under concurrent writers and compaction", "5 C06",
+   "Held on observer loops run against concurrent writers (successes and failures) and a compactor on memkv, Badger and the TiKV mock: the reconstruction equals the later list exactly.",
+   "events are delivered in revision order (C05), which makes the sentinel a logical completeness marker"),
+ "C07": ("fault_enumeration", "enumeration of every compaction delete position x {fail one, die after} on identically rebuilt stores, differential reads against the reference model", "5 C07",
+   "Every delete call position of every generated history's compaction was faulted (fail-one generic / fail-one failed-compare / compactor death + new backend); after each, all reads at revisions >= R, a second clean compaction, the same reads, model-chosen writes on every key and records outside the compaction ranges were compared with the reference. Concurrent writer/compactor variant sampled.",
+   "a compactor death is modelled as all later deletes failing plus a new backend over the same store; histories are sampled, positions within a history are exhaustive"),
+ "C09": ("fault_enumeration", "enumeration of unknown-outcome faults over every write batch x {applied, not applied} (+ second-order faults on the repair write), convergence monitor on hook-observed quiescence", "5 C09",
+   "Every write batch position of every generated history was answered 'outcome unknown' in both variants, plus three second-order variants on the repair write; the client always got an error, later writes flowed, compaction stayed below the unresolved revision, and after hook-observed quiescence store and event stream converged to the storage-boundary ground truth.",
+   "unknown outcomes are injected at the storage.KvStorage boundary; retry intervals shortened through the verif hook"),
+ "C19": ("exploration", "Go race detector over the concurrent workloads of the other checks (worker built with -race), reports deduplicated by innermost kubebrain function pair", "5 C19",
+   "No data race report with a kubebrain frame was produced while the concurrent workloads (writers, readers, watchers joining/leaving/overflowing, compaction, async retry) ran under the race detector on memkv and Badger; counts of executions and report blocks in evidence.",
+   "a race detector sees only executed interleavings; reports wholly inside the TiKV mock or the harness are listed, not counted"),
 }
 def cmd(p, tier): return "./bin/kbcheck %s --tier %s" % (p, tier)
 hooks = subprocess.run(["git","-C","/repo","log","--format=%H %s"],capture_output=True,text=True).stdout.splitlines()
